@@ -136,9 +136,9 @@ def run_drv(work, binary, tier, seed, tag, only=None):
     cursor = work.path("cursor_%s.txt" % tag)
     killers = []     # inputs that terminate the process (twice more, each alone)
     while True:
-        # after an input that ends the process its whole family (the other truncations of the same file, ...) is
+        # after an input that ends the process the other inputs of its entry point (tls/..., signer/...) are
         # left out: the same defect would end the process again and again
-        extra = ["-cursor", cursor] + (["-except", "\n".join(k["id"].rsplit("/", 1)[0] + "/*" for k in killers)]
+        extra = ["-cursor", cursor] + (["-except", "\n".join(k["id"].split("/", 1)[0] + "/*" for k in killers)]
                                        if killers else [])
         try:
             out = run_driver(binary, args + extra, timeout=3000)
